@@ -35,7 +35,13 @@ def gen_exact(rng):
         base = dy(rng)
         mx = base * rng.choice([1, 2, 8, 64])
         prev = rng.choice([None, Fraction(0), dy(rng), base / 4, mx, mx * 4])
-        return {"kind": k, "base": fr(base), "max": fr(mx), "prev": fr(prev), "r": fr(draw(rng))}
+        r = draw(rng)
+        if rng.random() < 0.2:
+            # prev * 3.0 at the edge of the float range: finite (2**1022 * 3), or +inf, where uniform() yields inf or, for the
+            # draw 0.0, NaN; the strategy must still answer max_s
+            prev = rng.choice([Fraction(2) ** 1022, Fraction(3) * Fraction(2) ** 1021, Fraction(2) ** 1023, Fraction(2**53 - 1) * Fraction(2) ** 971])
+            r = rng.choice([Fraction(0), Fraction(0), Fraction(1, 2), Fraction(2**20 - 1, 2**20)])
+        return {"kind": k, "base": fr(base), "max": fr(mx), "prev": fr(prev), "r": fr(r)}
     if k in ("equal", "token"):
         base = dy(rng, -10, 2)
         mx = base * rng.choice([1, 2, 16, 1024, 2**20])
@@ -46,11 +52,11 @@ def gen_exact(rng):
         return {"kind": k, "base": fr(base), "max": fr(mx), "attempt": attempt, "r": fr(draw(rng))}
     if k == "adaptive":
         window = Fraction(rng.choice([1, 4, 8]))
-        total = rng.choice([1, 2, 4, 8])
+        total = rng.choice([0, 1, 2, 4, 8])      # 0: everything recorded has left the window (or nothing was recorded)
         now = Fraction(rng.randint(8, 40))
         hist = []
         # some old observations: pruned (age >= window; boundary age == window is pruned: time <= cutoff)
-        for _ in range(rng.randint(0, 3)):
+        for _ in range(rng.randint(0, 3) if total else rng.choice([0, 1, 1, 2, 3])):
             hist.append([fr(now - window - rng.choice([0, 1, 2])), rng.random() < 0.5])
         fails = rng.randint(0, total)
         flags = [False] * fails + [True] * (total - fails)
